@@ -31,7 +31,7 @@ CONFIGS = {
         thorough=dict(MaxSid=14, Users='{"u1"}', EncIds='{"e1"}', MaxMpk=4, Pols="<- MCPolsSmall")),
     "Edits": dict(
         ops=["AddAttr", "DelAttr", "Rename", "Update", "KeyGen", "Refresh", "Encaps"],
-        quick=dict(Script="<- Script_A", Dims='{"D2"}', Names='{"a", "b", "c"}', MaxAttrs=3, MaxUid=3, MaxSid=6,
+        quick=dict(Script="<- Script_A", Dims='{"D2"}', Names='{"a", "b", "c"}', MaxAttrs=3, MaxUid=3, MaxSid=5,
                    Users='{"u1"}', EncIds='{"e1"}', MaxMpk=3, Pols="<- MCPolsSmall", IdFromCount="FALSE"),
         thorough=dict(Script="<- Script_HA", MaxAttrs=4, MaxUid=5, MaxSid=11, Users='{"u1"}', EncIds='{"e1"}',
                       MaxMpk=4, Pols="<- MCPolsSmall", IdFromCount="FALSE", Names='{"a", "b", "c"}')),
@@ -56,7 +56,7 @@ CONFIGS = {
                       Users='{"u1", "u2"}', EncIds='{"e1", "e2"}')),
     "Ids": dict(
         ops=["KeyGen", "Refresh", "Clone", "RoundTrip", "Rekey"],
-        quick=dict(MaxSid=7, Users='{"u1", "u2", "u3"}', EncIds='{"e1"}', Pols="<- MCPolsSmall", MaxMpk=4,
+        quick=dict(MaxSid=5, Users='{"u1", "u2"}', EncIds='{"e1"}', Pols="<- MCPolsSmall", MaxMpk=3,
                    Script="<- Script_A", Dims='{"D2"}'),
         thorough=dict(MaxSid=10, Users='{"u1", "u2", "u3"}', EncIds='{"e1"}', Pols="<- MCPolsSmall", MaxMpk=3)),
 }
